@@ -107,6 +107,33 @@ def run(ctx):
             raise MachineryError('GrammarStatic failed for %s: %s' % (d, r.errors[:3]))
 
     cases = build_cases(ctx, 100000 if thorough else 250, 40 if thorough else 10)
+    # what may follow a complete statement: every tail of up to 4 (5) units over ; / block comment / line comment / token / line
+    # break, enumerated by TLC from TailGen.tla together with the contract's answer (may such a text be accepted at all?)
+    from .tlaparse import find_prints
+    tg = ctx.tlc('TailGen', cfg='TailGen5.cfg' if thorough else 'TailGen4.cfg', name='tailgen')
+    if tg.violated or not tg.ok:
+        raise MachineryError('TailGen: %s %s' % (tg.violated, tg.errors[:2]))
+    tails = [(v[1], v[2]) for v in find_prints(tg.out, 'TAIL')]
+    if len(tails) != tg.distinct:
+        raise MachineryError('TailGen: parsed %d of %d tails' % (len(tails), tg.distinct))
+    tail_expect = {}
+    toks_ = ['from', 'select 2', ')', 'x', 'drop table t', '(']
+    for ti, (units, may) in enumerate(sorted(tails)):
+        k_ = 0
+        txt = ''
+        for u in units:
+            if u == 'tok':
+                piece = toks_[(ti + k_) % len(toks_)]
+                k_ += 1
+            else:
+                piece = {'semi': ';', 'block': '/* c%d */' % k_, 'line': '-- c\n', 'nl': '\n'}[u]
+            txt += (' ' if txt and not txt.endswith('\n') else '') + piece
+        for d in DIALECTS:
+            for base in (('select 1', 'select a from t where b = 2') if ti % 2 else ('select a from t where b = 2', 'show tables')):
+                sql_ = base + (' ' if ti % 3 else '') + txt
+                cases.append((sql_, d, 'statement-tail'))
+                tail_expect[(sql_, d)] = may
+    ctx.cov['statement_tails'] = {'tails': len(tails), 'verdicts': {k_: sum(1 for _, m in tails if m == k_) for k_ in ('same', 'reject', 'free')}, 'cases': len(tail_expect)}
     # comments: the token stream the parser sees must be the text minus its comments (reference rule, independent of the
     # lexers' comment patterns) -- a lexer that drops more than the comment hides tokens from every later check
     from .corpus import pmap
@@ -128,6 +155,20 @@ def run(ctx):
         for i, vv in zip(idx, v):
             verdicts[i] = vv
     judge(ctx, cases, results, verdicts)
+    n_tail_acc = 0
+    for (sql, d, kind), res in zip(cases, results):
+        if kind == 'statement-tail' and res['final'] == 'tree':
+            n_tail_acc += 1
+            if tail_expect[(sql, d)] == 'reject':
+                ctx.violation('accepted-with-a-tail:%s' % d, 'a statement followed by a semicolon and further tokens (or by a semicolon that '
+                              'a comment shields from the strip) is accepted: something of the input was dropped',
+                              {'sql': sql, 'dialect': d, 'kind': kind})
+    ctx.cov['statement_tails']['accepted'] = n_tail_acc
+    # "same": the text is the statement itself, so it must be accepted exactly as the statement alone is
+    for (sql, d, kind), res in zip(cases, results):
+        if kind == 'statement-tail' and tail_expect[(sql, d)] == 'same' and res['final'] != 'tree':
+            ctx.violation('statement-with-blank-tail-rejected:%s' % d, 'a statement followed only by semicolons, line breaks and comments '
+                          'that the strip and the lexer remove is not accepted', {'sql': sql, 'dialect': d, 'kind': kind, 'final': res['final']})
     kinds = {}
     for (sql, d, kind), res in zip(cases, results):
         k = (kind, res['trace']['outcome'])
